@@ -3,7 +3,8 @@
    correspondence of tools/props/C04.py on every run).  All statements quantify over EVERY finite
    history, every routing predicate `dom` and every decodability predicate `dec`. *)
 From Coq Require Import NArith List Bool.
-From Kd Require Import theories.Pairing theories.PairingProofs theories.PairingThms.
+From Kd Require Import theories.Pairing theories.PairingProofs theories.PairingThms theories.PairingIR gen.GenPairing
+  theories.PairingRefine.
 Import ListNotations.
 Open Scope N_scope.
 
@@ -57,6 +58,13 @@ Theorem c04_start : forall dom dec hr st e, Inv dom hr st -> p_q e = QS -> snd (
 Proof. exact start_no_trace. Qed.
 
 (* non-vacuity: nested + crossing pairs, a stray END, two threads, two domains (code 7 is trace-domain) *)
+(* 0. the model IS the code: the statements of _feed_start_event / _feed_end_event / _feed_single_event and the qualifier
+      dispatch table, regenerated from the source on every run (gen/GenPairing.v), compute exactly the table step of the
+      model on which the theorems above are proved - for every table state and every event; no KeyError is possible *)
+Theorem c04_code_refines_model : forall e I T, Cover (I, T) ->
+  exists I', exec (action_of (p_q e)) (I, T) e = Done (I', fst (step1 e T)) (snd (step1 e T)) /\ Cover (I', fst (step1 e T)).
+Proof. exact refines. Qed.
+
 Example c04_nontrivial :
   let dom c := N.eqb c 7 in let dec c := negb (N.eqb c 9) in
   let E t c q i := mkPev t c q i in
